@@ -302,7 +302,7 @@ var utlsKnown = map[uint16]string{17: "status_request_v2", 24: "token_binding", 
 func missingCause(p *chello.Parsed, err error) string {
 	for _, e := range p.Exts {
 		if _, ok := utlsKnown[e.Type]; ok {
-			return "extension-body-rejected-by-utls"
+			return fmt.Sprintf("extension-body-rejected-by-utls/type=%d", e.Type)
 		}
 	}
 	return "other"
